@@ -30,8 +30,8 @@ CHECKS = {
     design="4/C07"),
  "C08": dict(
     technique="property-based testing: exhaustive (subshell kind x mutator) grid + proptest mutator sequences under FIFO and seeded schedules; invariant oracle on full parent snapshots before/after and on the child's view at entry",
-    text="Exploration: 10 subshell kinds x 67 state mutators x 3 schedules exhaustively, plus random sequences of 1-5 mutators under random schedules with preemption; the parent's complete observable state (variables+attributes, functions, aliases, options, positional parameters, traps, cwd, umask, descriptor table by open-file-description identity, signal dispositions) must be identical before and after; the child's view at entry must equal it except for reset command traps. Bounded.",
-    note="Trusted: the snapshot probe (probes.rs) and process inspection (vsys.rs). `$?`, `$!`, the job list and the variable assigned from $( ) are excluded by construction; SIGCHLD handling installed by the shell itself is ignored.",
+    text="Exploration: 10 subshell kinds x 67 state mutators x 3 schedules exhaustively, plus random sequences of 1-5 mutators under random schedules with preemption, also nested in an outer subshell that has mutated its own state, with the subshell ending by falling off the end / exit / death by SIGTERM, SIGINT or SIGQUIT, in non-interactive and interactive (-i, script on stdin) shells; the parent's complete observable state (variables+attributes, functions, aliases, options, positional parameters, traps, cwd, umask, descriptor table by open-file-description identity, signal dispositions) must be identical before and after; the child's view at entry must equal it except for reset command traps. Bounded.",
+    note="Trusted: the snapshot probe (probes.rs) and process inspection (vsys.rs). `$?`, `$!`, the job list and the variable assigned from $( ) are excluded by construction; SIGCHLD handling installed by the shell itself, and the job-control stop signals an interactive shell's subshells keep ignoring, are not counted as differences.",
     design="4/C08"),
  "C09": dict(
     technique="property-based testing + fault enumeration: exhaustive single redirections (17 command kinds x 73 operator/operand pairs x 7 targets x noclobber), proptest redirection lists, and a descriptor-limit sweep (RLIMIT_NOFILE 3..16, two ways) against a reference descriptor-table/file model; invariant-only oracle under injected allocation failures",
@@ -74,27 +74,27 @@ CHECKS = {
     design="4/C12"),
  "C13": dict(
     technique="property-based testing with an owned scheduler: proptest race-free programs x (depth-first enumeration of scheduler choice vectors + seeded schedules) with preemption hooks, compared with a reference model; process table inspected at exit",
-    text="Exploration: random race-free programs (pipelines, async lists, wait/wait PID, subshells, command substitutions, pipefail), each run under FIFO, a DFS over the scheduler's choice vectors up to a budget and seeded random schedules, with preemption points before every wait/read/write; per-process traces, status, stderr, sink data must equal the reference model under every schedule, no deadlock, every child terminated and reaped. Bounded; liveness only as 'no explored schedule deadlocks'.",
+    text="Exploration: random race-free programs (pipelines, async lists, wait/wait PID, subshells, command substitutions, pipefail, pipelines whose last stage exits without reading while the writers hold more than the pipes can buffer), each run under FIFO, a DFS over the scheduler's choice vectors up to a budget and seeded random schedules, with preemption points before every wait/read/write; per-process traces, status, stderr, sink data must equal the reference model under every schedule, no deadlock, every child terminated and reaped. Bounded; liveness only as 'no explored schedule deadlocks'.",
     note="Trusted: harness scheduler (vsys.rs), the verif-hooks preemption points in yash-env, the small reference model in c13.rs. Interleavings finer than system-call boundaries and the real OS scheduler are not explored.",
     design="4/C13"),
  "C14": dict(
     technique="property-based testing with an owned scheduler: payload sizes around every pipe-buffer boundary x shapes x schedules (grid + proptest scripted schedules + DFS on small transfers); round-trip oracle on the bytes",
-    text="Exploration: a grid of 19 boundary sizes x 4 trailing-newline counts x 8 shapes x 40 (quick) / 400 (thorough) schedules, random sizes up to 4x pipe capacity with shrinkable scripted schedules, and a depth-first enumeration of schedules for four small transfers; received bytes / $( ) value / here-document body must equal what was produced. Bounded.",
+    text="Exploration: a grid of 19 boundary sizes x 4 trailing-newline counts x 8 shapes x 6 sets of standard descriptors closed beforehand x 16 (quick) / 200 (thorough) schedules, random sizes up to 4x pipe capacity with shrinkable scripted schedules, and a depth-first enumeration of schedules for four small transfers; received bytes / $( ) value / here-document body must equal what was produced. Bounded.",
     note="Trusted: probe built-ins gen/cat/sink, harness scheduler, preemption hooks. Only the simulated pipe implementation (PIPE_BUF 512, PIPE_SIZE 1024) is exercised.",
     design="4/C14"),
  "C17": dict(
-    technique="property-based testing / differential: exhaustive alias tables x line templates; the real parser with the table vs the real parser without aliases on the harness' textual substitution (reference tokenizer + command-position model); look-up counter as termination oracle; 10% executed",
-    text="Exploration: every alias table over 3 (quick) / 4 (thorough) names x 22 value shapes (other names, trailing blank, reserved words, operators, redirections, assignments, quoted, empty, self-reference, newline) x 44 / 120 command-line templates; printed parse of L with table T must equal printed parse of the hand-substituted L' (or both syntax errors); more than 10 000 alias look-ups = non-termination; a sample is executed and traces compared. Bounded.",
+    technique="property-based testing / differential: exhaustive alias tables x line templates; the real parser with the table vs the real parser without aliases on the harness' textual substitution (reference tokenizer + command-position model); look-up counter as termination oracle; second parse with newly allocated alias definitions on every look-up; 10% executed; runtime driver for aliases whose multi-line value changes the alias table",
+    text="Exploration: every alias table over 3 (quick) / 4 (thorough) names x 22 value shapes (other names, trailing blank, reserved words, operators, redirections, assignments, quoted, empty, self-reference, newline) x 44 / 120 command-line templates; printed parse of L with table T must equal printed parse of the hand-substituted L' (or both syntax errors); more than 10 000 alias look-ups = non-termination; a sample is executed and traces compared; every substituting case is parsed again with a glossary that hands out a new definition object per look-up (same result required); 120 scripts with a two-line alias value whose first line re-defines / removes an alias used on its second line are executed and compared with the by-hand reading. Bounded.",
     note="Trusted: the substitution model in harness/src/props/c17.rs and the alias-free parser (itself judged by C06). Global aliases are checked at parser API level only (yash-rs has no alias -g).",
     design="4/C17"),
  "C18": dict(
     technique="property-based testing / metamorphic: proptest scripts fed as -c string, script file, stdin file and stdin pipe written in generated chunk sizes under generated schedules; compared with a reference line-at-a-time interpretation",
-    text="Exploration: random scripts (alias definitions and uses, read consuming following lines, multi-line commands, here-documents, eval/source of multi-line text, planted syntax errors, offset probes) run in four feeding modes; probe traces, read values, here-document data, status and (for seekable stdin) the descriptor offset after each command must equal the reference and hence each other. Bounded.",
+    text="Exploration: random scripts (alias definitions and uses, read consuming following lines, multi-line commands, here-documents, eval/source of multi-line text, planted syntax errors, offset probes, comments holding arbitrary bytes incl. stray and truncated UTF-8 sequences right before the newline) run in four feeding modes, the pipe optionally inherited non-blocking; probe traces, read values, here-document data, status and (for seekable stdin) the descriptor offset after each command must equal the reference and hence each other, and fd 0 must be in blocking mode whenever a command runs. Bounded.",
     note="Trusted: the reference interpretation in harness/src/props/c18.rs, the helper process that feeds the pipe (vsys.rs). The pipe feeder yields between chunks so the scheduler interleaves reader and writer; the real OS is not used.",
     design="4/C18"),
  "C19": dict(
-    technique="property-based testing / differential: proptest scripts from a 122-statement catalogue run by the same generic shell main on RealSystem (child process in a scratch directory) and on VirtualSystem; stdout, exit status, stderr emptiness and final file tree diffed",
-    text="Exploration: every catalogue statement alone and in two fixed contexts, plus 8k (quick) / 400k (thorough) random scripts of 3-10 statements over redirections, descriptor juggling, cd, globbing, pipelines, substitutions, here-documents, read, subshells, umask, traps with self-signals, background jobs and wait, and error cases; both systems must produce identical stdout, status (incl. death by signal), stderr emptiness and final tree (names, types, contents, permission bits). Bounded; the real side runs under its natural schedule only.",
+    technique="property-based testing / differential: proptest scripts from a 129-statement catalogue run by the same generic shell main on RealSystem (child process in a scratch directory) and on VirtualSystem; stdout, exit status, stderr emptiness and final file tree diffed",
+    text="Exploration: every catalogue statement alone and in two fixed contexts, plus 8k (quick) / 400k (thorough) random scripts of 3-10 statements over redirections, descriptor juggling, cd, globbing, pipelines, substitutions, here-documents, read, subshells, umask, traps with self-signals, background jobs and wait, transfers of 66-150 kB through real pipes, a trapped signal arriving between two forks of one command, and error cases; both systems must produce identical stdout, status (incl. death by signal), stderr emptiness and final tree (names, types, contents, permission bits). A real-OS run in which every process of the script is asleep without using CPU for 10 s is reported as a deadlock (state predicate, not a time limit). Bounded; the real side runs under its natural schedule only.",
     note="Trusted: the replicated 12 lines of yash-cli glue (sys.rs), the probe built-ins, tempfile scratch directories. Two simulator limitations are open known findings (symbolic links not followed by open / in mid-path; open(O_CREAT) creating missing directories); permission-denied behaviour is not exercised (root).",
     design="4/C19"),
  "C20": dict(
